@@ -186,3 +186,20 @@ Proof. exact (gen_readout_forward_eq odim s x). Qed.
 Print Assumptions C10_generated_rls_train_is_model.
 Print Assumptions C10_generated_lms_train_is_model.
 Print Assumptions C10_generated_readout_forward_is_model.
+
+(* intrinsic plasticity: gaussian_gradients / exp_gradients / apply_gradients / ip as translated from the current source text of
+   nodes/reservoirs/intrinsic_plasticity.py (coq/gen/Gen_ip.v) ARE the per-unit rule of C10_ip_per_unit / C10_ip_step, for every
+   number of units; ip_activation is f(a * state + b) *)
+From RV Require Import gen.Gen_ip proofs.Gen_ip_eq.
+
+Theorem C10_generated_ip_is_model (tr : bool) (mu sigma eta : R) (xs ys a b : list R) :
+  length ys = length xs -> length a = length xs -> length b = length xs ->
+  GenIP.ip a b mu sigma eta tr xs ys = ip_units tr mu sigma eta xs ys a b.
+Proof. exact (gen_ip_eq tr mu sigma eta xs ys a b). Qed.
+
+Theorem C10_generated_ip_activation_is_model (f : list R -> list R) (st : ipst (F:=R)) (x : list R) :
+  GenIP.ip_activation (ia st) (ib st) x f = f (ip_arg st x).
+Proof. exact (gen_ip_activation_eq f st x). Qed.
+
+Print Assumptions C10_generated_ip_is_model.
+Print Assumptions C10_generated_ip_activation_is_model.
